@@ -43,7 +43,7 @@ fn nest_not(depth: usize) -> Card {
 fn compile_stress(c: &mut Choices) -> (String, Module) {
     let mut main = Function::default();
     let mut m = Module::default();
-    let kind = c.draw(7);
+    let kind = c.draw(11);
     let name = match kind {
         0 => {
             // many distinct globals, written and read
@@ -122,6 +122,43 @@ fn compile_stress(c: &mut Choices) -> (String, Module) {
             m.submodules.push(("top".into(), inner));
             m.functions.push(("f".into(), Function::default()));
             format!("super{}_depth{}", supers, depth)
+        }
+        7 | 8 => {
+            // a construct that needs several hidden local slots at once (for-each 5 + its
+            // variables, repeat 2 + its variable, array literal 1, a new variable 1, a closure)
+            // compiled when only 0..20 of the 255 local slots are left
+            let n = 236 + c.draw(22);
+            for i in 0..n {
+                main.cards.push(Card::set_var(format!("l{}", i), Card::scalar_int(i as i64)));
+            }
+            let body = || Card::set_global_var("g", Card::scalar_int(1));
+            let var = |on: bool, n: &str| if on { Some(n.to_string()) } else { None };
+            let which = c.draw(5);
+            let (vi, vk, vv) = (c.bool(), c.bool(), c.bool());
+            main.cards.push(match which {
+                0 => card(CardBody::ForEach(Box::new(cao_lang::compiler::ForEach { i: var(vi, "fi"), k: var(vk, "fk"), v: var(vv, "fv"), iterable: Box::new(card(CardBody::CreateTable)), body: Box::new(body()) }))),
+                1 => card(CardBody::Repeat(Box::new(cao_lang::compiler::Repeat { i: var(vi, "ri"), n: Card::scalar_int(2), body: body() }))),
+                2 => Card::set_global_var("g", card(CardBody::Array(vec![Card::scalar_int(1), Card::scalar_int(2), Card::scalar_int(3)]))),
+                3 => Card::set_var("one_more", Card::scalar_int(1)),
+                _ => Card::set_var("clo", card(CardBody::Closure(Box::new(Function { arguments: vec!["x".into(), "y".into()], cards: vec![Card::set_var("z", Card::read_var("l0"))] })))),
+            });
+            format!("locals{}_then_construct{}", n, which)
+        }
+        9 => {
+            // loops nested d deep: every level keeps its hidden locals alive
+            let d = c.draw(70);
+            let fe = c.bool();
+            let mut inner = Card::set_global_var("g", Card::scalar_int(1));
+            for level in 0..d {
+                let name = format!("v{}", level);
+                inner = if fe {
+                    card(CardBody::ForEach(Box::new(cao_lang::compiler::ForEach { i: None, k: None, v: Some(name), iterable: Box::new(card(CardBody::CreateTable)), body: Box::new(inner) })))
+                } else {
+                    card(CardBody::Repeat(Box::new(cao_lang::compiler::Repeat { i: Some(name), n: Card::scalar_int(1), body: inner })))
+                };
+            }
+            main.cards.push(inner);
+            format!("nested_loops{}_{}", d, if fe { "foreach" } else { "repeat" })
         }
         _ => {
             // many functions (label table growth) calling each other
@@ -351,7 +388,7 @@ impl Property for C04 {
         "C04"
     }
     fn rule(&self) -> &'static str {
-        "case = one of: (0) arbitrary card tree (any kind in any slot, valid/invalid/dotted/reserved/non-ASCII names, malformed imports, submodules) round-tripped through serde_json and serde_yaml and compiled; (1) structured compile stress: 0-80 globals, 0-300 locals, closure nests naming up to 400 outer variables, card nesting 0-63, submodule depth 55-74 around the recursion limit, super chains longer than the module depth, 0-199 functions; (2) run templates: unbounded recursion on call stacks 1..256, right-nested expressions on value stacks 1..256, i64/f64 boundary arithmetic, huge repeat counts under budgets 1..1000, calling non-functions, bad row indices, self-referencing tables used with == < as key in foreach, reserved-hash keys, budgets 0/1/2, std functions on NaN/mixed/non-table input, missing natives, native re-entry on a tiny call stack, tables holding keys that can not be found again (NaN, a table changed after it was used as a key) under pop / get / set / len / row access / for-each / append / == / use as a key / every std function; (3) random well-scoped programs under random (budget, value stack, call stack). Each case runs in an isolated worker: no panic, no signal, no hang; where a template forces a specific error kind it is asserted. non-trivial = compile cases that pass both loaders and contain a construct outside the repo tests' shapes, run cases that end in an error kind or touch a boundary value; distinct by hash of the decoded case"
+        "case = one of: (0) arbitrary card tree (any kind in any slot, valid/invalid/dotted/reserved/non-ASCII names, malformed imports, submodules) round-tripped through serde_json and serde_yaml and compiled; (1) structured compile stress: 0-80 globals, 0-300 locals, closure nests naming up to 400 outer variables, card nesting 0-63, submodule depth 55-74 around the recursion limit, super chains longer than the module depth, 0-199 functions, 236-257 locals followed by a construct that needs several hidden local slots (for-each, repeat, array literal, one more variable, closure), loops nested 0-69 deep; (2) run templates: unbounded recursion on call stacks 1..256, right-nested expressions on value stacks 1..256, i64/f64 boundary arithmetic, huge repeat counts under budgets 1..1000, calling non-functions, bad row indices, self-referencing tables used with == < as key in foreach, reserved-hash keys, budgets 0/1/2, std functions on NaN/mixed/non-table input, missing natives, native re-entry on a tiny call stack, tables holding keys that can not be found again (NaN, a table changed after it was used as a key) under pop / get / set / len / row access / for-each / append / == / use as a key / every std function; (3) random well-scoped programs under random (budget, value stack, call stack). Each case runs in an isolated worker: no panic, no signal, no hang; where a template forces a specific error kind it is asserted. non-trivial = compile cases that pass both loaders and contain a construct outside the repo tests' shapes, run cases that end in an error kind or touch a boundary value; distinct by hash of the decoded case"
     }
     fn assumptions(&self) -> Vec<String> {
         vec![
@@ -369,7 +406,7 @@ impl Property for C04 {
         true
     }
     fn case_timeout(&self) -> std::time::Duration {
-        std::time::Duration::from_secs(10)
+        std::time::Duration::from_secs(30)
     }
     fn crash_context(&self, bytes: &[u8]) -> String {
         context_of(&decode(bytes))
